@@ -263,6 +263,15 @@ func (p *Proxy) Outage(reset bool) {
 	p.KillAll(reset)
 }
 
+// OutageKeep stops listening (new dials are refused) but leaves established connections alone.
+func (p *Proxy) OutageKeep() {
+	p.mu.Lock()
+	if !p.down.Swap(true) {
+		p.ln.Close()
+	}
+	p.mu.Unlock()
+}
+
 // OutageSoft keeps the listener but closes every new connection right after accepting it (dials
 // succeed, the connection dies at once) and kills the established ones.
 func (p *Proxy) OutageSoft(reset bool) {
